@@ -469,7 +469,16 @@ func reuseBufferCycles(c *core.Ctx, lb *gen.LBundle, cycles int) {
 	var buf bytes.Buffer
 	cur := lb.ToRepo()
 	var results []*bundle.Bundle
+	var models []*gen.LBundle
 	for cy := 1; cy <= cycles; cy++ {
+		if cy > 1 && c.Bool("reuse.otherBundle") {
+			// the tool goes on to ANOTHER bundle through the same buffer: what it reads back is
+			// that bundle, not whatever an earlier cycle left behind in the buffer
+			if alt := gen.DrawBundle(c, 3, true); !alt.ExpectWriteError && !alt.MultiKey {
+				lb, cur = alt, alt.ToRepo()
+				c.Probe("another bundle through the same reused bytes.Buffer")
+			}
+		}
 		var err error
 		if pi := c.Guard("Bundle.WriteTo", func() { _, err = cur.WriteTo(&buf) }); pi != nil {
 			c.CheckTotal("Bundle.WriteTo", 0, pi, 0)
@@ -494,12 +503,13 @@ func reuseBufferCycles(c *core.Ctx, lb *gen.LBundle, cycles int) {
 			sameAsModel(c, rb, lb, fmt.Sprintf("reused-buffer-cycle%d", cy))
 		}
 		results = append(results, rb)
+		models = append(models, lb)
 		cur = rb
 	}
 	c.Probe("write/read cycles through one reused bytes.Buffer")
 	if c.Oracle("C03") {
 		for i, rb := range results {
-			sameAsModel(c, rb, lb, fmt.Sprintf("reused-buffer-result%d-at-the-end", i+1))
+			sameAsModel(c, rb, models[i], fmt.Sprintf("reused-buffer-result%d-at-the-end", i+1))
 		}
 	}
 }
